@@ -22,38 +22,26 @@ func c05EveryEntryInserted(c *core.Ctx) {
 		return
 	}
 	cons := fname(ipf, "", "New")
-	var lit *ast.FuncLit
-	ast.Inspect(f.Body, func(n ast.Node) bool {
-		if l, ok := n.(*ast.FuncLit); ok && lit == nil {
-			for _, call := range calls(l.Body, false) {
-				if methodName(call) == "Insert" {
-					lit = l
-				}
+	body := c05RangerBuilder(f)
+	vf := newMuxFlow([]*flow.Func{body})
+	// the loop over the configured entries: the range / counting loop over a []string whose body inserts
+	var loop *muxLoop
+	for _, l := range vf.loops("entries", func(x ast.Expr) bool {
+		tv, ok := f.Info.Types[x]
+		return ok && tv.Type != nil && tv.Type.String() == "[]string"
+	}) {
+		for _, call := range calls(l.body(), false) {
+			if c05IsInsert(f, call) && loop == nil {
+				loop = l
 			}
 		}
-		return true
-	})
-	body := f
-	if lit != nil {
-		body = f.Lit(lit)
 	}
-	var loop *ast.RangeStmt
-	ast.Inspect(body.Body, func(n ast.Node) bool {
-		if rs, ok := n.(*ast.RangeStmt); ok && loop == nil {
-			for _, call := range calls(rs.Body, false) {
-				if methodName(call) == "Insert" {
-					loop = rs
-				}
-			}
-		}
-		return true
-	})
 	if loop == nil {
 		c.Undecide("R-C05-5", cons+"|every parsed entry is inserted", pos(c, body.Body), "no loop over the configured entries inserts into the ranger")
 		return
 	}
 	var ipID, errID *ast.Ident
-	ast.Inspect(loop.Body, func(n ast.Node) bool {
+	ast.Inspect(loop.body(), func(n ast.Node) bool {
 		as, ok := n.(*ast.AssignStmt)
 		if !ok || len(as.Rhs) != 1 {
 			return true
@@ -78,19 +66,16 @@ func c05EveryEntryInserted(c *core.Ctx) {
 	iters := 0
 	res := analyze(c, body, flow.Config{NoHavoc: true,
 		OnCall: func(st *flow.State, call *ast.CallExpr, callee types.Object, deferred bool) {
-			if methodName(call) == "Insert" && contains(loop, call) {
+			if c05IsInsert(f, call) && contains(loop.stmt, call) {
 				st.Set("ev:inserted", flow.True)
 			}
 		},
 		OnBlock: func(st *flow.State, b *cfg.Block) {
-			if b.Stmt != loop {
-				return
-			}
-			switch b.Kind {
-			case cfg.KindRangeBody:
+			switch {
+			case loop.isBody(b):
 				st.Set("ev:inbody", flow.True)
 				st.Set("ev:inserted", flow.Unknown)
-			case cfg.KindRangeLoop:
+			case loop.isHead(b):
 				if st.Is("ev:inbody", flow.True) {
 					iters++
 					parsed := st.Is(ipNil, flow.False) || (st.Is(ipNil, flow.True) && st.Is(errNil, flow.True))
@@ -109,24 +94,30 @@ func c05EveryEntryInserted(c *core.Ctx) {
 		return
 	}
 	c.RequireCount("R-C05-5", "abstract iterations over the configured entries", iters, 2)
-	c.Check(bad == nil, "R-C05-5", cons+"|every parsed entry is inserted", pos(c, loop), sprintf("%d abstract iteration ends: a successfully parsed address or CIDR always reaches Insert", iters),
+	c.Check(bad == nil, "R-C05-5", cons+"|every parsed entry is inserted", pos(c, loop.stmt), sprintf("%d abstract iteration ends: a successfully parsed address or CIDR always reaches Insert", iters),
 		"an entry that parsed successfully is skipped without being inserted into the ranger: a configured address/CIDR is silently ignored (e.g. a wider CIDR listed after a narrower one)", witness(bad)...)
-	exits := breaksOut(body, loop, labelOf(body.Body, loop))
-	c.Check(len(exits) == 0, "R-C05-5", cons+"|all entries are visited", pos(c, loop), "the loop over the configured entries has no early exit", "the loop over the configured entries can be left early: later entries are ignored")
+	exits := breaksOut(body, loop.stmt, labelOf(body.Body, loop.stmt))
+	c.Check(len(exits) == 0 && loop.ordered, "R-C05-5", cons+"|all entries are visited", pos(c, loop.stmt), "the loop over the configured entries has no early exit", "the loop over the configured entries can be left early (or does not visit every index): later entries are ignored")
 }
 
 // R-C05-3 (extension): an own-level filter is omitted only for an absent spec.
 func c05NewIPFilter(c *core.Ctx) {
-	f := fn(c, hs, "", "newIPFilter")
-	if f == nil {
+	ro := muxRolesOf(c, "R-C05-3")
+	if ro == nil {
 		return
 	}
-	cons := fname(hs, "", "newIPFilter")
+	mc := muxCtorsOf(c, ro, "R-C05-3")
+	if mc == nil {
+		return
+	}
+	f := mc.filterCtor
+	cons := muxFuncConstruct(f)
 	if f.Type.Params == nil || len(f.Type.Params.List) != 1 || len(f.Type.Params.List[0].Names) != 1 {
 		c.Undecide("R-C05-3", cons+"|signature", pos(c, f.Body), "unexpected signature")
 		return
 	}
 	specNil := f.NilKey(f.Type.Params.List[0].Names[0])
+	vf := newMuxFlow([]*flow.Func{f})
 	res := analyze(c, f, flow.Config{NoHavoc: true})
 	if res == nil {
 		return
@@ -134,16 +125,24 @@ func c05NewIPFilter(c *core.Ctx) {
 	var bad *flow.State
 	n := 0
 	for _, ex := range res.Exits {
-		if ex.Kind != flow.ExitReturn || ex.Return == nil || len(ex.Return.Results) != 1 {
+		if ex.Kind != flow.ExitReturn {
+			continue
+		}
+		r := muxRetExpr(f, vf, ex)
+		if r == nil {
 			continue
 		}
 		n++
-		if f.Info.Types[ex.Return.Results[0]].IsNil() && !ex.State.Is(specNil, flow.True) {
+		isNil := f.Info.Types[r].IsNil()
+		if id := muxIdentOf(r); id != nil && !isNil && ex.State.Is(f.NilKey(id), flow.True) {
+			isNil = true
+		}
+		if isNil && !ex.State.Is(specNil, flow.True) {
 			bad = ex.State
 		}
-		if !f.Info.Types[ex.Return.Results[0]].IsNil() {
+		if !isNil {
 			// must be ipfilter.New(spec)
-			call, ok := ast.Unparen(ex.Return.Results[0]).(*ast.CallExpr)
+			call, ok := vf.through(r).(*ast.CallExpr)
 			if !ok || !calleeIs(f, call, "pkg/util/ipfilter.New") {
 				bad = ex.State
 			}
